@@ -360,8 +360,11 @@ def _unpack(r, want_unit):
 
 
 def _after(res, ctx, case, what, im=None, um=None):
-    """Nothing the caller handed in may have changed."""
+    """Nothing the caller handed in may have changed.  Returns True when the image buffer was modified
+    (it is restored here, so a result that is a view of it can no longer be judged)."""
+    dirty = False
     if im is not None and im.modified():
+        dirty = True
         now = im.raw.tolist()
         was = im.pristine.tolist()
         diff = [(y, x, was[y][x], now[y][x]) for y in range(len(was)) for x in range(len(was[y]))
@@ -377,6 +380,7 @@ def _after(res, ctx, case, what, im=None, um=None):
             np.asarray(ctx.mask.data).tobytes() != ctx.wbytes:
         _V(res, 'weights_modified', case, f'{what} modified the mask weights -- {_describe(ctx)}')
         raise _Rebuild()
+    return dirty
 
 
 class _Rebuild(Exception):
@@ -476,8 +480,6 @@ def check_to_image(res, ctx):
         _V(res, 'to_image_wrong', case, f'to_image shape {vals.shape}, image shape {(g.iny, g.inx)} -- {_describe(ctx)}',
            [g.iny, g.inx], list(vals.shape))
         return
-    if np.shares_memory(vals, ctx.warr):
-        _V(res, 'to_image_wrong', case, f'to_image result shares memory with the mask weights -- {_describe(ctx)}')
     # model: zero image, then drop every inside cell's weight on its pixel
     model = [[Fraction(0)] * g.inx for _ in range(g.iny)]
     for j in range(g.bny):
@@ -509,7 +511,9 @@ def check_cutout(res, ctx, dt, layout, fname, copy):
         _after(res, ctx, case, 'cutout', im)
         _raised(res, ctx, case, f'cutout({dt} image, fill_value={fname}, copy={copy})', r)
         return
-    _after(res, ctx, case, 'cutout', im)
+    if _after(res, ctx, case, 'cutout', im):
+        res.outcome(('cutout', g.kind, 'input_modified'))
+        return
     if not g.overlap:
         res.outcome(('cutout', g.kind, 'None' if r is None else type(r).__name__))
         if r is not None:
@@ -553,7 +557,9 @@ def check_multiply(res, ctx, dt, layout, fname):
         _after(res, ctx, case, 'multiply', im)
         _raised(res, ctx, case, f'multiply({dt} image, fill_value={fname})', r)
         return
-    _after(res, ctx, case, 'multiply', im)
+    if _after(res, ctx, case, 'multiply', im):
+        res.outcome(('multiply', g.kind, 'input_modified'))
+        return
     if not g.overlap:
         res.outcome(('multiply', g.kind, 'None' if r is None else type(r).__name__))
         if r is not None:
@@ -605,7 +611,9 @@ def check_values(res, ctx, dt, layout, mname):
         _after(res, ctx, case, 'get_values', im, um)
         _raised(res, ctx, case, f'get_values({dt} image, mask={mname})', r)
         return
-    _after(res, ctx, case, 'get_values', im, um)
+    if _after(res, ctx, case, 'get_values', im, um):
+        res.outcome(('get_values', g.kind, 'input_modified'))
+        return
     if not isinstance(r, np.ndarray):
         _V(res, 'values_wrong', case, f'get_values returned {type(r).__name__}, not an array -- {_describe(ctx)}')
         return
